@@ -13,7 +13,7 @@ use crate::Rng;
 use ndarray::Array2;
 use num_complex::Complex64;
 use quil_rs::expression::Expression;
-use quil_rs::instruction::{Gate, GateError, GateModifier, Qubit};
+use quil_rs::instruction::{Gate, GateError, GateModifier, Instruction, Qubit};
 
 pub type Matrix = Array2<Complex64>;
 
@@ -32,8 +32,11 @@ pub fn mat_to_sexp(m: &Matrix) -> Sexp {
     Sexp::List(v)
 }
 
+/// Projection of a gate parameter: what `gate_matrix` sees, i.e. `into_simplified()` — a `Number` or anything
+/// else. (For a `Number` literal this is the literal itself; parameters parsed from Quil text such as `2*pi`
+/// reach the model as the number the real simplifier computed.)
 pub fn param_to_sexp(e: &Expression) -> Sexp {
-    match e {
+    match e.clone().into_simplified() {
         Expression::Number(c) => tagged("num", vec![f64bits(c.re), f64bits(c.im)]),
         _ => tagged("other", vec![]),
     }
@@ -169,5 +172,62 @@ pub fn angle(rng: &mut Rng, i: usize) -> f64 {
         SPECIAL_ANGLES[i]
     } else {
         (rng.unit() * 4.0 - 2.0) * std::f64::consts::PI
+    }
+}
+
+pub fn instr_to_sexp(i: &Instruction) -> Sexp {
+    match i {
+        Instruction::Gate(g) => gate_to_sexp(g),
+        Instruction::Halt() => tagged("halt", vec![]),
+        _ => tagged("other", vec![]),
+    }
+}
+
+/// The parameterised table gates: (name, number of qubits).
+pub const PARAM_GATES: [(&str, usize); 9] = [
+    ("RX", 1),
+    ("RY", 1),
+    ("RZ", 1),
+    ("PHASE", 1),
+    ("CPHASE", 2),
+    ("CPHASE00", 2),
+    ("CPHASE01", 2),
+    ("CPHASE10", 2),
+    ("PSWAP", 2),
+];
+
+/// Exact special angles the way a user writes them: as an `f64` product of `std::f64::consts::PI`, and as Quil
+/// text (evaluated by quil-rs's own parser + simplifier). 0, ±π/4, ±π/2, ±π, ±3π/2, ±2π, ±3π, ±4π, 6π.
+pub fn exact_angles() -> Vec<(f64, &'static str)> {
+    use std::f64::consts::PI;
+    vec![
+        (0.0, "0"),
+        (PI / 4.0, "pi/4"),
+        (-PI / 4.0, "-pi/4"),
+        (PI / 2.0, "pi/2"),
+        (-PI / 2.0, "-pi/2"),
+        (PI, "pi"),
+        (-PI, "-pi"),
+        (3.0 * PI / 2.0, "3*pi/2"),
+        (-3.0 * PI / 2.0, "-3*pi/2"),
+        (2.0 * PI, "2*pi"),
+        (-2.0 * PI, "-2*pi"),
+        (3.0 * PI, "3*pi"),
+        (-3.0 * PI, "-3*pi"),
+        (4.0 * PI, "4*pi"),
+        (-4.0 * PI, "-4*pi"),
+        (6.0 * PI, "6*pi"),
+    ]
+}
+
+/// `NAME(text) q…` parsed by `Program::from_str`; the single gate of the program, parameter as parsed.
+pub fn parse_gate(name: &str, angle_text: &str, qubits: &[u64]) -> Gate {
+    use std::str::FromStr;
+    let qs: Vec<String> = qubits.iter().map(|q| q.to_string()).collect();
+    let text = format!("{}({}) {}", name, angle_text, qs.join(" "));
+    let p = quil_rs::Program::from_str(&text).unwrap_or_else(|e| panic!("{text}: {e}"));
+    match p.to_instructions().as_slice() {
+        [Instruction::Gate(g)] => g.clone(),
+        other => panic!("{text}: parsed to {other:?}"),
     }
 }
